@@ -4,6 +4,11 @@
 properties/rules report it. Writes /verif/seeded/MATRIX.md."""
 import json, os, subprocess, sys, glob, shutil, tempfile, concurrent.futures as cf
 
+# BVCHECK / DETECT_KEY let a frozen earlier build of the checker record its verdicts under another key (used for the
+# unbiased round-2 measurement: seeds are first run against the checker as it was BEFORE anyone looked at them)
+BV = os.environ.get('BVCHECK', '/verif/bin/bvcheck')
+KEY = os.environ.get('DETECT_KEY', 'detection')
+
 def sh(cmd, **kw):
     return subprocess.run(cmd, shell=True, stdout=subprocess.PIPE, stderr=subprocess.STDOUT, text=True, **kw)
 
@@ -19,16 +24,16 @@ def one(seed):
             # the pinned commit has since received fix: commits; try a 3-way apply
             r = sh(f'git -C {wt} apply --3way {d}/patch.diff')
         if r.returncode != 0:
-            meta['detection'] = {'applies_to_current_tree': False, 'note': r.stdout[-300:]}
+            meta[KEY] = {'applies_to_current_tree': False, 'note': r.stdout[-300:]}
             return seed, meta
         os.makedirs(vd, exist_ok=True)
         shutil.copy('/verif/KNOWN_FINDINGS.txt', vd)
-        r = sh(f'/verif/bin/bvcheck -repo {wt} -verif {vd} -prop all -nocache', timeout=1800)
+        r = sh(f'{BV} -repo {wt} -verif {vd} -prop all -nocache', timeout=2400)
         lines = r.stdout.splitlines()
         hits = [l[:420] for l in lines if 'VIOLATED [' in l or 'UNDECIDED [' in l]
         props = sorted({l.split('property=')[1].split()[0] for l in lines if l.startswith('VIOLATION')})
         rules = sorted({l.split('[')[1].split(']')[0] for l in hits})
-        meta['detection'] = {'applies_to_current_tree': True, 'cmd': 'bvcheck -repo <patched worktree of /repo HEAD> -prop all -nocache',
+        meta[KEY] = {'applies_to_current_tree': True, 'cmd': 'bvcheck -repo <patched worktree of /repo HEAD> -prop all -nocache',
                              'exit': r.returncode, 'properties_reporting': props, 'rules_reporting': rules, 'reports': hits[:8],
                              'detected': bool(props), 'detected_by_own_property': meta['property'] in props}
         return seed, meta
@@ -44,7 +49,7 @@ def main():
     with cf.ThreadPoolExecutor(j) as ex:
         for seed, meta in ex.map(one, seeds):
             json.dump(meta, open(f'/verif/seeded/{seed}/meta.json', 'w'), indent=1)
-            d = meta['detection']
+            d = meta[KEY]
             print(seed, 'confirmed' if meta.get('confirmed') else 'UNCONFIRMED', 'detected' if d.get('detected') else 'missed', d.get('rules_reporting'), flush=True)
     sh('git -C /repo worktree prune')
     # matrix
